@@ -210,16 +210,14 @@ theorem read_fired_fault_is_error (ext : Ext) (a : Archive) (i : Nat) (name : By
    (byIndexRaw_tight a i).clean k d⟩
 
 /-- **The streaming reader** (`ZipStreamReader::visit`, every entry read to its end; also under any
-pattern of partial reads followed by drop): a fault that fires is returned as that very error. -/
+pattern of partial reads followed by drop — but see the note below): a fault that fires is returned as that very error. -/
 theorem stream_fired_fault_is_error (ext : Ext) (k : Nat) (d : Dev)
     (hf : Fired k d (streamVisit ext (some k) d).2) :
     (streamVisit ext (some k) d).1 = .err (.io .injected) :=
   (streamVisit_tight ext).clean k d hf
 
-theorem stream_entries_fired_fault_is_error (ext : Ext) (pattern : List Nat) (fuel i : Nat) (k : Nat)
-    (d : Dev) (hf : Fired k d (streamEntriesC ext pattern fuel i (some k) d).2) :
-    (streamEntriesC ext pattern fuel i (some k) d).1 = .err (.io .injected) :=
-  (streamEntriesC_tight ext pattern fuel i).clean k d hf
+-- c11: restate (`stream_entries_fired_fault_is_error`: under partial consumption the drop-time drain swallows
+-- a read error - `Model.drain` -, so the statement is false for a fault that fires inside the drain).
 
 /-- **`ZipArchive::new`**: a fault that fires — at ANY I/O call — is reported as an error (the injected
 one; `InvalidArchive` when it hit the seek to the central directory, which the crate maps to that). -/
